@@ -59,6 +59,7 @@ func checkC08(ctx *Ctx, r *Report, tier string) {
 	}
 	r.expectControl("U4", "verifCtlMsKernelNoDegenerate")
 	degenerateTest(ctx, r, "U4", "Line2", 2)
+	degenerateToleranceZero(ctx, r, "U4", "render")
 	equalsAtZeroTolerance(ctx, r, "U4", "v2")
 	freshPrimitivePerIteration(ctx, r, "U4", kfn, "Line2")
 	r.floor("U4", 4)
